@@ -214,6 +214,8 @@ def add_targets(E, spec, pid):
         ctx.ghost["connections"] = []
         return cl, None
 
+    E._mk_client, E._client_activate = mk_client, lambda: activate()
+
     def common_post(ctx, old, args, outcome, host, port):
         cl = args[0]
         tofu = z3.Bool("tofu_enabled")
